@@ -75,13 +75,17 @@ class EIO(Engine):
                     for src in srcs:
                         add(mode='write', chunk=chunk, len=n, cls=cls, src=src)
         if tier == 'thorough':
-            for chunk in small:   # second pass with other content (seed differs through case number)
-                for n in range(0, 3 * chunk + 10):
-                    for cls in CLASSES:
-                        for src in WRITE_SRC:
+            # every chunk size that is a multiple of 8 up to 128 bits (and a few larger ones), every length up to
+            # 3 chunks + 9 bits, every class, every source kind; content and the lsb0 knob differ through the case number
+            for chunk in tuple(range(8, 136, 8)) + (256, 1024):
+                top = 3 * chunk + 10 if chunk <= 128 else 0
+                lens = range(0, top) if top else sorted({0, 1, chunk - 1, chunk, chunk + 1, 2 * chunk - 3, 2 * chunk, 2 * chunk + 5, 3 * chunk, 3 * chunk + 9})
+                for n in lens:
+                    for cls in CLASSES + ('Array',):
+                        for src in (WRITE_SRC if cls != 'Array' else ('mem',)):
                             add(mode='write', chunk=chunk, len=n, cls=cls, src=src)
             add(mode='write_real', chunk=None, len=8 * 100 * 1024 * 1024 + 5, cls='Bits', src='mem')
-        sizes = (0, 1, 2, 3) if tier == 'quick' else (0, 1, 2, 3, 4, 5)
+        sizes = (0, 1, 2, 3) if tier == 'quick' else (0, 1, 2, 3, 4, 5, 6, 7)
         for size in sizes:
             for route in READ_ROUTES:
                 for cls in CLASSES:
